@@ -18,7 +18,7 @@ type allocRec struct {
 // effect-free callees: results are arbitrary, the heap is untouched.
 var effectFreePrefixes = []string{
 	"fmt.Sprintf", "fmt.Sprint", "fmt.Errorf", "fmt.Println", "fmt.Printf", "fmt.Sprintln", "fmt.Fprintf",
-	"errors.New", "strconv.", "strings.", "(*strings.Builder).", "unicode.", "utf8.", "unicode/utf8.",
+	"errors.New", "github.com/pkg/errors.New", "github.com/pkg/errors.Errorf", "strconv.", "strings.", "(*strings.Builder).", "unicode.", "utf8.", "unicode/utf8.",
 	"time.Now", "(time.Time).", "time.Since", "(time.Duration).",
 	"encoding/hex.EncodeToString", "encoding/hex.DecodeString",
 	"(*sync.Mutex).", "(*sync.RWMutex).", "(*sync/atomic.", "sync/atomic.Load",
@@ -264,7 +264,7 @@ func (vc *VC) call(fr *Frame, st *State, ins ssa.Instruction, cc *ssa.CallCommon
 	if isEffectFree(full) {
 		vc.effectFree[full]++
 		v := vc.freshVal(st, "ef!"+shortName(full), resType)
-		if full == "errors.New" || full == "fmt.Errorf" {
+		if full == "errors.New" || full == "fmt.Errorf" || full == "github.com/pkg/errors.New" || full == "github.com/pkg/errors.Errorf" {
 			vc.assume(st, tNot(tEq(v.T, mk("(mk-iface 0 0)", sortIface))))
 		}
 		if full == "fmt.Sprintf" && len(cc.Args) > 0 {
@@ -406,6 +406,12 @@ func (vc *VC) applyContract(fr *Frame, st *State, con *Contract, callee *ssa.Fun
 		lbl := r.Label
 		if lbl == "" {
 			lbl = fmt.Sprint(i)
+		}
+		if strings.HasSuffix(lbl, "!init") {
+			// a fact about package-level singletons established by the node's initialisation before any call:
+			// assumed inside the function, not demanded from callers, reported as an assumption
+			vc.trusted[key+" ["+lbl+"] "+r.Src+" (initialisation fact assumed, not checked at call sites)"] = true
+			continue
 		}
 		vc.oblige(st, fr, "pre", tag+"."+lbl, t, r.Src, pos)
 	}
